@@ -11,15 +11,32 @@ class C15(C14):
            "next_rtc", "complete_circuit")
   action_kinds = ("post_fifo", "post_lifo", "defer", "defer_e", "recall", "recall")
   rule = ("Hypothesis-generated histories on a real HsmWithQueues: generated chart whose handlers "
-          "post, defer a fresh event, defer the event being handled, and recall (budgeted) x up to "
+          "post, defer a fresh event, defer the event being handled, and recall (budgeted) x up to 3 posts/defers made before start_at x up to "
           "25 operations from post_fifo, post_lifo, defer, recall, next_rtc, complete_circuit; unique "
-          "ids. Oracle: model deque + defer list: a deferred id is never dispatched before its "
+          "ids; one history in four starts from a queue holding exactly its capacity (500 events), "
+          "where a recall displaces the oldest queued event. Oracle: model deque + defer list: a deferred id is never dispatched before its "
           "recall; each recall (outside or inside a handler) returns the oldest deferred event (the "
           "same object for events posted from outside) and places it at the back of the queue "
           "(checked through the later dispatch order); a recall with nothing deferred returns None "
           "and changes nothing. Non-trivial: >=2 events deferred at once and >=1 recall that "
           "returned an event; distinct = distinct case digests.")
   assumptions = C14.assumptions
+
+  def strategy(self, tier):
+    from hypothesis import strategies as st
+    from .. import queued
+    base = queued.history(kinds=self.kinds, action_kinds=self.action_kinds, bulk=True, pre=True)
+
+    def at_capacity(case):
+      # the queue holds exactly its capacity when events are deferred and recalled: a recall then
+      # displaces the oldest queued event (bounded deque), it must still return and post the event
+      case = dict(case, at_capacity=True, budget=30)
+      sig = case["spec"]["sigs"][0]
+      case["ops"] = [["bulk_post", sig, 500], ["defer", sig], ["defer", sig], ["recall"], ["next_rtc"],
+                     ["recall"], ["recall"]] + [o for o in case["ops"] if o[0] != "bulk_post"][:6]
+      case["spec"] = dict(case["spec"], acts={})
+      return case
+    return st.one_of(base, base, base, base.map(at_capacity))
 
   def compare_common(self, o, exp_dispatched, seen, where):
     # an event deferred by the handler that was processing it is legitimately
